@@ -17,6 +17,17 @@ def I(label, bv):
     return (label, 'I', bv)
 
 
+def D(label, decide):
+    """alternative decided by a procedure: decide(got) -> (True|False|None, detail).  True counts as class P (the
+    procedure proves equality with the spec function for all operand values)."""
+    return (label, 'D', decide)
+
+
+def _octa(got, a, b, w, sign):
+    from engine import octa
+    return octa.saturating(got, a, b, w, sign)
+
+
 def K(ty, v):
     return T.const(ty.bits, v)
 
@@ -143,6 +154,8 @@ def sadd(ty, a, b):
         hi = T.sub(K(ty, smax_c(ty)), b)
         t = T.add(b, T.sel(T.topbit(b), T.minmax('smax', a, lo), T.minmax('smin', a, hi)))
         alts.append(I('clamp-then-add', t))
+        # branchy overflow tests (scalar overload): decided by octagon case analysis over the exact operands
+        alts.append(D('clamp(x + y) by octagon case analysis', lambda got: _octa(got, a, b, ty.bits, +1)))
         return alts
     alts = [P('uadd.sat', T.raw_op('uadd.sat', ty.bits, a, b))]
     # a + min(b, ~a): ~a = MAX - a is the head-room
@@ -159,6 +172,7 @@ def ssub(ty, a, b):
         lo = T.add(K(ty, smin_c(ty)), b)
         hi = T.add(K(ty, smax_c(ty)), b)
         alts.append(I('clamp-then-sub', T.sub(T.sel(T.topbit(b), T.minmax('smin', a, hi), T.minmax('smax', a, lo)), b)))
+        alts.append(D('clamp(x - y) by octagon case analysis', lambda got: _octa(got, a, b, ty.bits, -1)))
         return alts
     alts = [P('usub.sat', T.raw_op('usub.sat', ty.bits, a, b))]
     alts.append(I('x-min(x,y)', T.sub(a, T.minmax('umin', a, b))))
